@@ -105,6 +105,7 @@ type Path struct {
 	panicMsg  string
 	known     string
 	obs       []obsRec
+	prodOf    map[*Term][2]*Term // non-overflowing BV-mode products -> factors (big.go)
 	bypass    map[string]int // functions whose override is bypassed on this path right now (callBody)
 }
 
